@@ -74,12 +74,13 @@ type Contract struct {
 	MayPanic   map[int]bool
 	Ghosts     []GhostUpdate
 	ElemFacts  []ElemFact
-	Inline     bool        // callee is inlined at call sites instead of using the contract
-	Wraps      [][2]string // (result, arg): the result reads / writes through arg (calls its methods)
-	Effect     bool        // the callee has an externally visible effect (file write, truncate, ...)
-	EffectReqs []Clause    // obligations at every call to an effectful callee
-	Implements []string    // keys of interface-method contracts whose ensures this method must satisfy
-	GhostInit  []string    // results whose type invariant is established by choice of their fresh ghost state
+	Inline     bool            // callee is inlined at call sites instead of using the contract
+	Wraps      [][2]string     // (result, arg): the result reads / writes through arg (calls its methods)
+	Effect     bool            // the callee has an externally visible effect (file write, truncate, ...)
+	EffectReqs []Clause        // obligations at every call to an effectful callee
+	ImplExcept map[string]bool // interface clauses this implementation does not satisfy (stated, not claimed)
+	Implements []string        // keys of interface-method contracts whose ensures this method must satisfy
+	GhostInit  []string        // results whose type invariant is established by choice of their fresh ghost state
 	Closures   map[int]*Contract
 	Notes      []string
 	Lines      int
@@ -406,7 +407,18 @@ func parseContractText(lines []string, file string, pkgPath string, voc *Vocab) 
 			}
 			cur.EffectReqs = append(cur.EffectReqs, c)
 		case "implements":
-			cur.Implements = append(cur.Implements, rest)
+			// implements <key> [except label, label]
+			key := rest
+			if i := strings.Index(rest, " except "); i >= 0 {
+				key = strings.TrimSpace(rest[:i])
+				if cur.ImplExcept == nil {
+					cur.ImplExcept = map[string]bool{}
+				}
+				for _, l := range splitArgs(rest[i+len(" except "):]) {
+					cur.ImplExcept[key+"#"+l] = true
+				}
+			}
+			cur.Implements = append(cur.Implements, key)
 		case "ghostinit":
 			cur.GhostInit = append(cur.GhostInit, splitArgs(rest)...)
 		case "ghost":
